@@ -2,13 +2,15 @@ import NetqasmVerif.Driver.Codec
 import NetqasmVerif.Driver.Gates
 import NetqasmVerif.Driver.Toolbox
 import NetqasmVerif.Driver.Bell
+import NetqasmVerif.Driver.QubitMgr
 open Lean NQ.Drv
 
 def handlers : List (String → Json → Option Json) := [
   handleCodec,
   handleGates,
   handleToolbox,
-  handleBell]
+  handleBell,
+  handleQubitMgr]
 
 def dispatch (j : Json) : Json :=
   match (jField? j "op").bind jStr? with
